@@ -30,6 +30,11 @@ RULE += (". Widened (~5%): BYTE SEQUENCES — JSON arrays of integers 0..255 hel
          "in pairs of equal length (equal, or differing in one byte) and of different length: Equal(x, y) both ways; arrays / objects of "
          "them with planted duplicates under uniqueItems; and as the values LISTED by enum / const of a schema built in Go (resolve-desc "
          "argument govals) against instances in every such representation")
+RULE += ("; ~2%: ForType with a TypeSchemas override for a struct embedded (1..3 levels down) in a generated declared type, incl. the layouts "
+         "where the overridden struct is the last field of its embedder and a shallower field follows")
+RULE += ("; ~2%: a Loader that answers with a *Schema the referring Resolved already holds as an INTERIOR subschema (of the root or of a "
+         "document loaded earlier; harness aliases with a JSON-Pointer target), referenced with no / empty / pointer / plain-name fragments "
+         "that exist or not")
 ASSUMPTIONS = ["schema recursion passes through an instance-descending keyword (otherwise the Go stack overflows: outside the proviso)",
                "encoding/json's byte scanner is the standard library's (not modelled)"]
 
@@ -152,6 +157,73 @@ def bytes_case(rng):
             "meta": {"graph": True, "bytes": True}}
 
 
+def interior_loader(rng):
+    """A Loader that answers a URL with a *Schema the referring Resolved ALREADY HOLDS as an interior subschema (harness `aliases` with
+    a JSON-Pointer target): a node of the root document, or of a Loader document that was asked for earlier — with or without `$id`,
+    with or without an anchor of its own —, referenced without fragment, with an empty fragment, a JSON Pointer (existing / dangling)
+    or a plain-name fragment (an anchor the node declares itself, one its enclosing document declares elsewhere, one that exists
+    nowhere). Whatever Resolve makes of such a Loader, it must return (a value or an error). The served nodes hold no references, so
+    no reference cycle arises; op validate-go: shared objects are outside the model."""
+    draft = rng.choice(["2020", "2020", "7"])
+    dk = "$defs" if draft == "2020" else "definitions"
+    base = rng.choice(["http://x.test/app/root.json", "http://x.test/r.json", "https://reg.test/a/b/n"])
+    dirn = base.rsplit("/", 1)[0] + "/"
+
+    def leaf(i):
+        o = Obj(rng.choice([[("type", "integer")], [("const", "R%d" % i)], [("properties", Obj([("q", Obj([("type", "string")]))]))], [],
+                            [(dk, Obj([("q", Obj([("type", "null")]))]))]]))
+        r = rng.random()
+        if r < 0.3:
+            o.set("$anchor" if draft == "2020" else "$id", "tgt%d" % i if draft == "2020" else "#tgt%d" % i)
+        elif r < 0.4:
+            o.set("$id", "sub%d.json" % i)               # neighbour: the served node is a resource root of its own
+        return o
+    n = rng.randint(1, 3)
+    holders = [("#root", None)]
+    docs = []
+    if rng.random() < 0.4:
+        durl = dirn + "lib.json"
+        holders.append((durl, "lib.json"))
+    interiors = []          # (holder, pointer)
+    bodies = {h: Obj() for h, _ in holders}
+    for i in range(n):
+        h, _ = rng.choice(holders)
+        where = rng.choice([dk, dk, "properties"])
+        nm = "n%d" % i
+        sub = bodies[h].get(where)
+        if sub is None:
+            sub = Obj()
+            bodies[h].set(where, sub)
+        sub.kvs.append((nm, leaf(i)))
+        interiors.append((h, "/%s/%s" % (where, nm)))
+    aliases, props = [], Obj()
+    if len(holders) > 1:
+        props.kvs.append(("lib", Obj([("$ref", "lib.json")])))          # the other document is asked for first
+        bodies[holders[1][0]].set("$anchor" if draft == "2020" else "title", "libanchor")
+        docs.append([holders[1][0], bodies[holders[1][0]]])
+    for k in range(rng.randint(1, 3)):
+        h, ptr = rng.choice(interiors)
+        url = "other%d.json" % k
+        aliases.append([dirn + url, h + "#" + ptr])
+        frag = rng.choice(["#nosuch", "#nosuch", "#nosuch", "#tgt%d" % rng.randrange(n), "#libanchor", "", "#", "#/properties/q", "#/%s/q" % dk,
+                           "#/nosuch/ptr", "#rootanchor"])
+        kw = "$ref" if draft == "7" or rng.random() < 0.85 else "$dynamicRef"
+        props.kvs.append(("p%d" % k, Obj([(kw, rng.choice([url, dirn + url]) + frag)])))
+    rng.shuffle(props.kvs) if rng.random() < 0.3 else None
+    root = bodies["#root"]
+    if rng.random() < 0.5:
+        root.set("$anchor" if draft == "2020" else "title", "rootanchor")
+    if root.get("properties") is None:
+        root.set("properties", props)
+    else:
+        root.get("properties").kvs += props.kvs
+    if draft == "7":
+        root.kvs.insert(0, ("$schema", "http://json-schema.org/draft-07/schema#"))
+    insts = [Obj(), Obj([("p0", Num("1"))]), Obj([("p0", "R0"), ("p1", Obj([("q", "s")]))])]
+    args = {"schema": root, "docs": docs, "base": base, "loader": True, "insts": insts, "aliases": aliases, "maxLoads": 8 * (len(docs) + len(aliases)) + 16}
+    return args, {"universe": True, "interior": True, "ndocs": len(docs) + len(aliases)}
+
+
 def gen(rng, tier, n):
     fields = gsv.fetch_fields(core)
     ops = []
@@ -233,11 +305,40 @@ def gen(rng, tier, n):
         elif rng.random() < 0.12:
             from .. import gen_refs as _gr
             ops.append({"op": "validate", "args": _gr.mixed_cycle(rng), "meta": {"universe": True, "mixed": True}})
+        elif rng.random() < 0.3:
+            args, meta = interior_loader(rng)
+            ops.append({"op": "validate-go", "args": args, "meta": meta})
         elif rng.random() < 0.25:
             # cycles between Loader documents named by absolute URIs WITH userinfo: outside the model of net/url, so op validate-go
             # (not sent to the model); judged by "returns" and by the Loader's request count
             args, meta = gen_refs.userinfo_cycle(rng)
             ops.append({"op": "validate-go", "args": args, "meta": meta})
+        elif rng.random() < 0.4 and gt.GEN["embedding"]:
+            # ForType with a TypeSchemas override for a struct type EMBEDDED in the type under inference — directly, or two and more
+            # levels down (generated declared types: gen_decls, incl. its tail layouts where the overridden struct is the last field of
+            # its embedder and a shallower field follows) —, the type plain or inside a container; well-formed entries (type object +
+            # properties) and ill-formed ones (For must answer with an error)
+            from .c16 import TS_EMBED_POOL
+            cands = sorted(gt.GEN["embedding"])
+            outer = rng.choice(cands)
+            clos = gt.embeds_closure(outer)
+            deep = [x for x in clos if x not in gt.GEN["embeds"].get(outer, [])]
+            if not deep:
+                for cand in rng.sample(cands, min(6, len(cands))):
+                    cc = gt.embeds_closure(cand)
+                    dd = [x for x in cc if x not in gt.GEN["embeds"].get(cand, [])]
+                    if dd:
+                        outer, clos, deep = cand, cc, dd
+                        break
+            inner = rng.choice(deep) if deep and rng.random() < 0.7 else rng.choice(clos)
+            N = {"k": "named", "name": outer}
+            t = rng.choice([N, N, N, {"k": "slice", "e": N}, {"k": "ptr", "e": N}, {"k": "map", "key": "string", "e": N},
+                            {"k": "struct", "fields": [{"name": "P", "tag": 'json:"p"', "t": N}, {"name": "Q", "tag": "", "t": {"k": "int"}}]}])
+            ts = [{"name": inner, "schema": rng.choice(TS_EMBED_POOL)}]
+            if rng.random() < 0.2 and len(clos) > 1:
+                ts.append({"name": rng.choice([x for x in clos if x != inner]), "schema": rng.choice(TS_EMBED_POOL)})
+            ops.append({"op": "infer-accepts", "args": {"type": t, "seed": 1, "n": 1, "opts": {"ignore": rng.random() < 0.3, "typeSchemas": ts}},
+                        "meta": {"embedded_override": True}})
         else:
             used = set()
             t = gt.gen_type(rng, 3, used, allow_known=0.1, allow_rec=0.3, allow_bad=0.3)
